@@ -480,13 +480,13 @@ def runLiteralC (env : CoerceEnv) (vs : List Lit) (en : Option (String × List S
 def bindPy (r : Outcome Py) (k : Py → Outcome Val) : Outcome Val :=
   match r with | .ok d => k d | .invalid e => .invalid e | .crash x => .crash x
 
-/-- `OptionalMethod` with a coercer: `coercer(NoneType, data)` is called inside the `except` clause, so
-    its own `bad_type` replaces the value method's error -/
+/-- `OptionalMethod` with a coercer: `coercer(NoneType, data)` is tried inside the `except` clause; when the datum is not coercible to `None`
+    either, the value method's error is merged with `bad_type(data, NoneType)` as without coercion (repair of row 65) -/
 def optionalTailC (env : CoerceEnv) (d : Py) (r : Outcome Val) : Outcome Val :=
   match r with
-  | .invalid _ => match coerce env .null d with
+  | .invalid e => match coerce env .null d with
       | .ok _ => .ok .null
-      | .invalid b => .invalid b
+      | .invalid _ => optionalTail d (.invalid e)
       | .crash x => .crash x
   | r => r
 
